@@ -80,7 +80,15 @@ static void vf_log_s(const char *n, const char *s, long len)
 
 /* ---- digest */
 static unsigned long long vf_mix(unsigned long long d, unsigned long long h) { return d * 1000003ULL + h; }
-static unsigned long long vf_sub(unsigned long long d, int k) { return d * 31ULL + 7ULL * (unsigned long long) (k + 1); }
+/* splitmix64 finaliser: every input bit influences every output bit, so outputs derived from a few
+   bits of the result still depend on all arguments */
+static unsigned long long vf_fin(unsigned long long z)
+{
+    z = (z ^ (z >> 30)) * 0xBF58476D1CE4E5B9ULL;
+    z = (z ^ (z >> 27)) * 0x94D049BB133111EBULL;
+    return z ^ (z >> 31);
+}
+static unsigned long long vf_sub(unsigned long long d, int k) { return vf_fin(d * 31ULL + 7ULL * (unsigned long long) (k + 1)); }
 static unsigned long long vf_h_i(long long v) { return (unsigned long long) v; }
 static unsigned long long vf_h_u(unsigned long long v) { return v; }
 static unsigned long long vf_h_f(float v) { return (unsigned long long) (uint32_t) vf_bits4(v); }
